@@ -22,6 +22,10 @@ func main() {
 	switch *prop {
 	case "C15":
 		genC15(*out, *tier, *seed)
+	case "C07":
+		genC07(*out, *tier, *seed)
+	case "C14":
+		genC14(*out, *tier, *seed)
 	default:
 		fmt.Fprintln(os.Stderr, "unknown property", *prop)
 		os.Exit(2)
